@@ -64,6 +64,7 @@ class Evaluator:
         self.C = run.V.contracts
         self.bound = {}
         self.havocked = set()
+        self.pkg = run.f.get("pkg", "")
 
     # ---------------------------------------------------------- public
     def bool(self, ast):
@@ -230,7 +231,7 @@ class Evaluator:
             if k in ("struct", "array"):
                 return Ref(Ptr(o), old)
             return self.deref(Ref(Ptr(o), old))
-        g = self.run.V.find_global(self.run, name)
+        g = self.run.V.find_global(self.run, name, self.pkg)
         if g is not None:
             p = self.run.V.global_ptr(self.run, self.st, g)
             return self.deref(Ref(p, old))
@@ -294,11 +295,14 @@ class Evaluator:
                 return True
             if op == "==>" and x is False:
                 return True
-            if op == "==>" and x is not True and saved:
+            if op == "==>" and x is not True:
+                from .terms import conjuncts as _cj
                 tr = self.st.truth(x)
+                if tr is None and any(self.st.truth(c) is False for c in _cj(x)):
+                    tr = False
                 if tr is False:
                     return True
-                if tr is True:
+                if tr is True and saved:
                     x = True
             if not (op == "&&" or (op == "==>" and x is True)):
                 self.assume = False
@@ -466,6 +470,12 @@ class Evaluator:
                     ii = self.prog.int_info(lt)
                     if ii:
                         parts.append(self.run.int_cmp("==", cur, oldv, ii[1]))
+                    elif self.ringmode and self.prog.kind(lt) == "opaque":
+                        if self.assume and (o, p) in self.havocked:
+                            self.st.mem[(o, p)] = oldv
+                            self.st.pending = {a: k for a, k in self.st.pending.items() if k != (o, p)}
+                        else:
+                            parts.append(self.run.limbs_equal(self.st, cur, oldv))
                     else:
                         parts.append(False)
             return mk_and(*parts)
@@ -546,7 +556,7 @@ class Evaluator:
 
 # ================================================================== ring mode (tier F)
 
-RING_BUILTINS = {"lv", "inv", "tight", "canon", "eqlimbs", "iszero", "isone", "rawzero", "fpow", "finv"}
+RING_BUILTINS = {"lv", "inv", "tight", "canon", "small", "eqlimbs", "iszero", "isone", "rawzero", "fpow", "finv"}
 
 
 def _ring_methods():
@@ -590,6 +600,9 @@ def _ring_methods():
                 e = req(poly - k2[1])
                 eqf = ("=", a, other)
                 st.hyps.append(mk_iff(e, eqf))
+                if not (poly + k2[1]).t and isinstance(other, Poly):
+                    # canonical representatives of x and -x:  both 0, or they add up to P
+                    st.hyps.append(mk_or(mk_and(("=", a, Poly.const(0)), ("=", other, Poly.const(0))), ("=", a + other, Poly.const(P25519))))
         st.cache[key] = a
         return a
 
@@ -612,6 +625,9 @@ def _ring_methods():
         return self.dom.s_cong(self.st, n, self.cv(ring), Poly.const(P25519))
 
     def ring_binary(self, op, x, y):
+        if op in ("+", "-", "*") and (isinstance(x, RCanon) or isinstance(y, RCanon)):
+            # canonical representatives are ordinary integers
+            return self.dom.s_bin(self.st, op, self.as_int(x), self.as_int(y))
         if op in ("+", "-", "*"):
             pa, pb = self.ring_of(x), self.ring_of(y)
             if pa is None or pb is None:
@@ -676,7 +692,7 @@ def _ring_methods():
         return w
 
     def sqrt_m1(self):
-        g = self.run.V.find_global(self.run, "sqrtM1")
+        g = self.run.V.find_global(self.run, "sqrtM1", "filippo.io/edwards25519/field")
         if g is None:
             raise VerifError("sqrtM1 is not visible here")
         p = self.run.V.global_ptr(self.run, self.st, g)
@@ -687,9 +703,11 @@ def _ring_methods():
         if name == "lv":
             v, _ = self.rv(self.ev(args[0], old))
             return RInt(v.poly)
-        if name in ("inv", "tight", "canon"):
+        if name in ("inv", "tight", "canon", "small"):
             v, ref = self.rv(self.ev(args[0], old))
-            lvl = {"inv": 1, "tight": 2, "canon": 3}[name]
+            lvl = {"inv": 1, "tight": 2, "canon": 3, "small": 2}[name]
+            if name == "small" and not self.assume:
+                raise Unsupported("small() cannot be established in ring mode")
             if self.assume:
                 if lvl <= 2 and v.inv < lvl and not ref.old:
                     self.setcell(ref, RVal(v.poly, lvl, v.raw))
